@@ -1344,6 +1344,49 @@ def remove_duplicate_functions(source: str, preserve: Collection[str]) -> str:
     return source
 
 
+def _string_continuation_linenos(root: ast.AST) -> Collection[int]:
+    """Line numbers (1-based) that begin inside a string literal spanning several lines."""
+    linenos = set()
+    for node in ast.walk(root):
+        if isinstance(node, (ast.Constant, ast.JoinedStr)) and getattr(node, "end_lineno", None):
+            if not isinstance(node, ast.Constant) or isinstance(node.value, (str, bytes)):
+                linenos.update(range(node.lineno + 1, node.end_lineno + 1))
+
+    return linenos
+
+
+def _reindent_block(
+    source: str, start: int, end: int, indent: str, continuation_linenos: Collection[int]
+) -> str:
+    """Text of the statements source[start:end] of one block, with the indentation of the block
+    replaced by indent.
+
+    The indentation that is replaced is whatever precedes the first statement on its line (spaces
+    of any width, tabs). Lines that begin inside a string literal are content and are kept."""
+    line_starts = core._get_line_start_charnos(source)
+    first_lineno = max(i for i, charno in enumerate(line_starts, 1) if charno <= start)
+    old_indent = source[line_starts[first_lineno - 1] : start]
+    if old_indent.strip():
+        # The block starts behind other code on its line, as in "else: return 1"
+        return indent + source[start:end]
+
+    pieces = []
+    for lineno in range(first_lineno, len(line_starts) + 1):
+        line_start = max(line_starts[lineno - 1], start)
+        line_end = min(line_starts[lineno] if lineno < len(line_starts) else len(source), end)
+        if line_start >= end:
+            break
+        line = source[line_start:line_end]
+        if lineno == first_lineno:
+            pieces.append(indent + line)
+        elif lineno not in continuation_linenos and line.startswith(old_indent):
+            pieces.append(indent + line[len(old_indent) :])
+        else:
+            pieces.append(line)
+
+    return "".join(pieces)
+
+
 @processing.fix
 def remove_redundant_else(source: str) -> str:
     """Remove redundante else and elif statements in code.
@@ -2465,9 +2508,14 @@ def remove_dead_ifs(source: str) -> str:
             ranges = [core.get_charnos(child, source) for child in remove]
             start = min((s for (s, _) in ranges))
             end = max((e for (_, e) in ranges))
-            indent = node.col_offset
             node_start, node_end = core.get_charnos(node, source)
-            modified_body = " " * indent + re.sub("(?<![^\\n])    ", "", source[start:end]).lstrip()
+            line_start = max(source.rfind("\n", 0, node_start), source.rfind("\r", 0, node_start)) + 1
+            indent = source[line_start:node_start]
+            if indent.strip():
+                indent = " " * node.col_offset
+            modified_body = _reindent_block(
+                source, start, end, indent, _string_continuation_linenos(root)
+            )
 
             pre_else = source[:node_start]
             start_offset = len(pre_else) - len(pre_else.rstrip())
